@@ -99,6 +99,9 @@ class LexInfZ3(Inference):
                 contra_solver.add(c.make_not_A_or_B())
             if contra_solver.check() == unsat:
                 return True
+            if len(self.epistemic_state["partition"]) < 2:
+                # no finite layer: all feasible worlds are equally plausible
+                return False
 
             result = self._rec_inference(
                 opt_v, opt_f, len(self.epistemic_state["partition"]) - 2, query_z3
